@@ -183,6 +183,9 @@ type ApplyOpts struct {
 	// this whitelist onto the SAME bowl object (Bowl.Resume(nil) keeps what is recorded); files handled by
 	// both passes are recorded twice and the bowl's work lists must stay free of duplicates
 	FirstPass map[int64]bool
+	// Peek > 0: the old-build pool is not handed over fresh: Peek bytes (or everything) of old file PeekIdx
+	// (modulo the number of files) have been read through GetReadSeeker before the application starts
+	Peek, PeekIdx int
 }
 
 type PreCommitError struct{ Msg string }
@@ -202,6 +205,9 @@ func ApplyFresh(patch []byte, oldDir, outDir string, o *ApplyOpts) error {
 	var tp lake.Pool = fspool.New(p.GetTargetContainer(), oldDir)
 	if o.WrapPool != nil {
 		tp = o.WrapPool(tp)
+	}
+	if o.Peek > 0 {
+		peekPool(tp, len(p.GetTargetContainer().Files), o.PeekIdx, o.Peek)
 	}
 	var b bowl.Bowl
 	b, err = bowl.NewFreshBowl(bowl.FreshBowlParams{
@@ -296,6 +302,23 @@ type OptParams struct {
 	ForceMapAll     bool  `json:"force,omitempty"`
 	RediffSizeLimit int64 `json:"limit,omitempty"`
 	Comp            Comp  `json:"comp"`
+	// Peek > 0: the pools are not handed over fresh - the caller has read Peek bytes (or to the end) of file
+	// PeekOld of the old build and PeekNew of the new build through GetReadSeeker before (indices modulo the
+	// number of files). lake.Pool makes no promise about the position of a seeker it hands out again.
+	Peek    int `json:"peek,omitempty"`
+	PeekOld int `json:"peek_old,omitempty"`
+	PeekNew int `json:"peek_new,omitempty"`
+}
+
+func peekPool(p lake.Pool, nfiles int, idx, n int) {
+	if nfiles == 0 {
+		return
+	}
+	rs, err := p.GetReadSeeker(int64(idx % nfiles))
+	if err != nil {
+		return
+	}
+	io.CopyN(io.Discard, rs, int64(n))
 }
 
 // Optimize rewrites patch with rediff.
@@ -313,9 +336,14 @@ func Optimize(patch []byte, oldDir, newDir string, op OptParams) ([]byte, error)
 		return nil, fmt.Errorf("rediff.NewContext: %w", err)
 	}
 	ob := new(bytes.Buffer)
+	var tpool, spool lake.Pool = fspool.New(rc.GetTargetContainer(), oldDir), fspool.New(rc.GetSourceContainer(), newDir)
+	if op.Peek > 0 {
+		peekPool(tpool, len(rc.GetTargetContainer().Files), op.PeekOld, op.Peek)
+		peekPool(spool, len(rc.GetSourceContainer().Files), op.PeekNew, op.Peek)
+	}
 	err = rc.Optimize(rediff.OptimizeParams{
-		TargetPool:  fspool.New(rc.GetTargetContainer(), oldDir),
-		SourcePool:  fspool.New(rc.GetSourceContainer(), newDir),
+		TargetPool:  tpool,
+		SourcePool:  spool,
 		PatchWriter: ob,
 	})
 	if err != nil {
